@@ -427,7 +427,7 @@ def run_shrink(prop, tier, shard_seed, examples, bucket, budget_s):
 
             ctx.shrink_deadline = t0 + budget_s
             t()
-    except ShrinkStop:
+    except (ShrinkStop, StopSearch):
         pass
     except Violation:
         pass
